@@ -13,6 +13,7 @@ import numpy as np
 import pandas as pd
 
 import fsic
+from fsic.extensions import AliasMixin, ProgressBarMixin, TracerMixin
 
 from .. import refsolve, scripted, spans
 from ..core.observe import observe, diff_obs
@@ -40,6 +41,16 @@ class LScripted(scripted.ScriptedBase, fsic.BaseModel):
     LEADS = 1
 
 
+class MScripted(ProgressBarMixin, AliasMixin, TracerMixin, scripted.ScriptedBase, fsic.BaseModel):
+    # every mixin of the library stacked on the model, none of them in use ("by default, behaviour is unchanged")
+    LAGS = 1
+    LEADS = 1
+    ALIASES = {'alpha': 'A'}
+
+
+_BUILD_CLS = [None]
+
+
 def build(kind, n, fpos, fault):
     span, labels = spans.make(kind, n)
     scripts = {p: list(NORMAL) for p in range(n)}
@@ -47,7 +58,7 @@ def build(kind, n, fpos, fault):
         scripts[fpos] = [('moved', 0)] * 8
     elif fault != 'none':
         scripts[fpos] = [('moved', 0), (fault, 0)]
-    m = scripted.make_scripted(span, scripts, cls=LScripted)
+    m = scripted.make_scripted(span, scripts, cls=_BUILD_CLS[0] or LScripted)
     m.A = [float(i) for i in range(n)]
     m.B = [-float(i) for i in range(n)]
     m.X = 1.0
@@ -61,6 +72,7 @@ def blocks(tier, seed):
         out.append({'kind': 'pairs', 'span': kind, 'n': n})
     out.append({'kind': 'period'})
     out.append({'kind': 'misc'})
+    out.append({'kind': 'second-solve'})
     for i in range(len(PARSER_SCRIPTS)):
         for kind in ('range', 'list_str', 'pd_year', 'np_int'):
             out.append({'kind': 'parser', 'i': i, 'span': kind})
@@ -72,11 +84,23 @@ def label_of(labels, i, kind):
         return None
     if i == 'absent':
         return spans.absent_label(kind)
+    if i == 'absent-tuple':
+        return (labels[0],)  # hashable, not a scalar, not in the span: an unknown label like any other
+    if i == 'absent-frozenset':
+        return frozenset([labels[0]])
     return labels[i]
 
 
 @robust(1, 0)
 def run_pair_case(case):
+    _BUILD_CLS[0] = MScripted if case.get('stacked') else None
+    try:
+        return _run_pair_case(case)
+    finally:
+        _BUILD_CLS[0] = None
+
+
+def _run_pair_case(case):
     kind, n, si, ei, fpos, fault = case['span'], case['n'], case['si'], case['ei'], case['fpos'], case['fault']
     kw = dict(max_iter=3, min_iter=case['min_iter'], tol=scripted.TOL, errors=case['errors'], failures=case['failures'],
               catch_first_error=case.get('cfe', True))
@@ -86,7 +110,7 @@ def run_pair_case(case):
     start, end = label_of(labels, si, kind), label_of(labels, ei, kind)
     out = []
     ra = refsolve.call_outcome(a.solve, start=start, end=end, **kw)
-    if si == 'absent' or ei == 'absent':
+    if str(si).startswith('absent') or str(ei).startswith('absent'):
         if ra[0] != 'KeyError':
             out.append(('unknown-label:not-KeyError', 'KeyError', ra[0], 'unknown start/end label must raise KeyError'))
         if observe(a) != init:
@@ -171,18 +195,33 @@ def run_pair_case(case):
 def run_pairs(block, tier, acc):
     kind, n = block['span'], block['n']
     n = min(n, spans.MAX_LEN.get(kind, n))
-    choices = [None] + list(range(n)) + ['absent']
+    choices = [None] + list(range(n)) + ['absent'] + ([] if kind.startswith('np_') or kind == 'list_mixed' else ['absent-tuple', 'absent-frozenset'])
     seen = set()
     _, probe_labels = spans.make(kind, n)
     for si, ei in itertools.product(choices, choices):
         if any(isinstance(i, int) and probe_labels[i] is None for i in (si, ei)):
             continue  # the label None cannot be passed as start/end: it *means* "use the default"
-        s0 = 1 if si in (None, 'absent') else si
-        e0 = n - 2 if ei in (None, 'absent') else ei
+        s0 = 1 if (si is None or str(si).startswith('absent')) else si
+        e0 = n - 2 if (ei is None or str(ei).startswith('absent')) else ei
         rng = list(range(s0, e0 + 1))
         fault_places = [(None, 'none')] + [(p, f) for p in rng for f in FAULTS[1:]]
-        if si == 'absent' or ei == 'absent':
+        if str(si).startswith('absent') or str(ei).startswith('absent'):
             fault_places = [(None, 'none')]
+        # the same pair on a model class that stacks every mixin of the library (no fault, and the first fault place)
+        for fpos, fault in fault_places[:2]:
+            case = dict(kind='pairs', span=kind, n=n, si=si, ei=ei, fpos=fpos, fault=fault, errors='raise', failures='raise', min_iter=0, cfe=True, stacked=True)
+            acc.evaluations += 1
+            try:
+                with guard(10):
+                    v, calls = run_pair_case(case)
+            except CaseTimeout:
+                acc.violation('timeout', case, 'termination', 'timeout')
+                continue
+            acc.traces += 1
+            acc.transitions += calls + 1
+            acc.nontrivial += 1 if (calls or str(si).startswith('absent') or str(ei).startswith('absent')) else 0
+            for key, exp, obs, what in v:
+                acc.violation(key + ':stacked-mixins', case, exp, obs, what)
         for fpos, fault in fault_places:
             for errors in ('raise', 'skip', 'ignore', 'replace'):
                 for failures in ('raise', 'ignore'):
@@ -200,7 +239,7 @@ def run_pairs(block, tier, acc):
                             continue
                         acc.traces += 1
                         acc.transitions += calls + 1
-                        acc.nontrivial += 1 if (calls or si == 'absent' or ei == 'absent') else 0
+                        acc.nontrivial += 1 if (calls or str(si).startswith('absent') or str(ei).startswith('absent')) else 0
                         for key, exp, obs, what in v:
                             acc.violation(key + ':' + ('numpy-span' if kind.startswith('np_') else 'span'), case, exp, obs, what)
                             seen.add(key)
@@ -377,9 +416,89 @@ def run_parser(acc, tier, block):
                                     acc.violation(key, case, exp, obs, what)
 
 
+@robust()
+def run_second_solve_case(case):
+    """A model that has been solved once is solved again, and the second run fails at one period in a way that does not stamp
+    the period (a failing hook, a pre-existing non-finite value under 'raise', an exception in a pass under a policy other than
+    'raise'): earlier periods carry the new solution, the failing period keeps the status and iteration count it had, later
+    periods are untouched."""
+    scen, fpos, errors, failures, entry = case['scenario'], case['fpos'], case['errors'], case['failures'], case['entry']
+    n = 5
+    first = [('moved', 0), ('conv', 0)]
+    second = {p: [('moved', 0), ('moved', 0), ('conv', 0)] for p in range(n)}
+    if scen == 'exc-in-pass':
+        second[fpos] = [('moved', 0), ('exc', 0)]
+    m = scripted.make_scripted(list(range(10, 10 + n)), {p: first + second[p] for p in range(n)}, cls=LScripted)
+    m.A = [float(i) for i in range(n)]
+    m.B = [-float(i) for i in range(n)]
+    kw = dict(max_iter=3, tol=scripted.TOL, errors=errors, failures=failures)
+    r0 = refsolve.call_outcome(m.solve, **kw)
+    if r0[0] != 'value' or [str(x) for x in m.status] != ['-', '.', '.', '.', '-']:
+        return [('second-solve:setup', 'a clean first solve', [r0[0], m.status.tolist()], 'the scenario could not be set up')]
+    if scen == 'pre-hook':
+        m.__dict__['_sc_pre_exc'] = True if fpos == 1 else False
+        if fpos != 1:
+            return []
+    elif scen == 'post-hook':
+        m.__dict__['_sc_post_exc'] = True if fpos == 1 else False
+        if fpos != 1:
+            return []
+    elif scen == 'pre-existing-nan':
+        m.A[fpos] = np.nan
+    before = [(str(m.status[p]), int(m.iterations[p])) for p in range(n)]
+    if entry == 'solve':
+        r = refsolve.call_outcome(m.solve, **kw)
+    else:
+        r = None
+        for p in (1, 2, 3):
+            r = refsolve.call_outcome(m.solve_t if entry == 'solve_t' else m.solve_period, p if entry == 'solve_t' else 10 + p, **kw)
+            if r[0] not in ('True', 'False'):
+                break
+    opts = dict(minIter=0, maxIter=3, errors=errors, failures=failures, cfe=True, pre='finite', preHook='none', postHook='none')
+    out, stopped = [], False
+    for p in range(n):
+        want = before[p]
+        if p in (1, 2, 3) and not stopped:
+            o = dict(opts)
+            if scen == 'pre-existing-nan' and p == fpos:
+                o['pre'] = 'nonfinite'
+            if scen == 'pre-hook':
+                o['preHook'] = 'exc'
+            if scen == 'post-hook':
+                o['postHook'] = 'exc'
+            e = refsolve.ref_trace(o, [x for x, _ in second[p]] + ['moved'] * 8)
+            if e['status'] != '-':
+                want = (e['status'], e['iters'])
+            if e['result'] not in ('True', 'False'):
+                stopped = True
+                if r[0] != e['result']:
+                    out.append(('second-solve:exception', e['result'], r[0], 'the second run must stop with the exception prescribed for period %d' % p))
+        got = (str(m.status[p]), int(m.iterations[p]))
+        if got != want:
+            out.append(('second-solve:status', [p, want], [p, got], 'after a failing second run a period does not carry the status it should (its new one if re-solved or stamped, else the one it had)'))
+            break
+    return out
+
+
+def run_second_solve(acc, tier):
+    for scen in ('pre-hook', 'post-hook', 'pre-existing-nan', 'exc-in-pass'):
+        for fpos in (1, 2, 3):
+            for errors in ('raise', 'skip', 'ignore', 'replace'):
+                for failures in ('raise', 'ignore'):
+                    for entry in ('solve', 'solve_t', 'solve_period'):
+                        case = dict(kind='second-solve', scenario=scen, fpos=fpos, errors=errors, failures=failures, entry=entry)
+                        acc.evaluations += 1
+                        acc.nontrivial += 1
+                        acc.traces += 1
+                        for key, exp, obs, what in run_second_solve_case(case):
+                            acc.violation(key + ':' + scen, case, exp, obs, what)
+
+
 def run_block(block, tier, seed):
     acc = Acc()
-    if block['kind'] == 'pairs':
+    if block['kind'] == 'second-solve':
+        run_second_solve(acc, tier)
+    elif block['kind'] == 'pairs':
         run_pairs(block, tier, acc)
     elif block['kind'] == 'period':
         run_period(acc, tier)
@@ -403,6 +522,8 @@ def run_one(case):
         return run_period_case(case)
     if k == 'misc':
         return run_misc_case(case)
+    if k == 'second-solve':
+        return run_second_solve_case(case)
     if k == 'parser':
         return run_parser_case(case)
     raise ValueError(k)
